@@ -27,6 +27,9 @@ def cells(tier, lens=None, angs=None, extra_angs=()):
     if tier == "thorough":
         trip += [t for t in itertools.product((89.9, 90.1), repeat=3)]
         trip += [t for t in itertools.permutations((89.9, 120.0, 60.1))]
+    # angles within 1e-3 .. 1e-7 degrees of a right angle (thresholds that snap "almost 90" to 90 live here)
+    trip += [(90.0, 90.0004, 90.0), (89.9996, 90.0, 90.0), (90.0, 90.0, 90.00005), (90.0004, 89.9996, 90.0004), (90.000001, 90.0, 89.999999),
+             (120.0, 90.0004, 89.9996), (60.0, 60.0, 90.00001)]
     trip += list(extra_angs)
     out = []
     for l in lens:
